@@ -30,12 +30,15 @@ type mapUndo struct {
 type pathEnd struct {
 	kind string // "assume", "panic", "exit", "unwind", "unmodelled", "crash", "infeasible", "budget"
 	msg  string
+	val  Value // panic: the value handed to panic (nil for run-time errors)
 }
 
 type frame struct {
 	fn     *ssa.Function
 	locals map[ssa.Value]Value
 	defers []func()
+	panicking *pathEnd // a Go panic is unwinding through this frame (its deferred calls are running)
+	recovered bool
 	merge  *phiMerge
 	pos    token.Pos
 }
@@ -122,6 +125,8 @@ type Interp struct {
 	nondetSeq    map[string]int
 	errSeq       int
 	procCodes    map[*Cell]Value
+	curG, goSeq  int // current goroutine (0 = the harness goroutine)
+	libState     map[*Cell]interface{} // engine-side state of modelled library objects (sync.Pool, sync.Map, strings.Builder, ...)
 	locked       int
 	pathNotes    []string
 	lastPanic    string
@@ -491,6 +496,9 @@ func (in *Interp) runPath(fn *ssa.Function, prefix []int) {
 	in.nondetSeq = map[string]int{}
 	in.errSeq = 0
 	in.locked = 0
+	in.curG, in.goSeq = 0, 0
+	in.libState = nil
+	in.procCodes = nil
 	in.pathNotes = nil
 	in.obs = nil
 	in.onceDone = nil
@@ -974,7 +982,45 @@ func (in *Interp) interpret(fn *ssa.Function, args []Value, env []Value) (result
 		in.FuncHarness[fname] = h
 	}
 
-	block := fn.Blocks[0]
+	if fn.Recover == nil {
+		return in.execFrom(fr, fn, fname, fn.Blocks[0])
+	}
+	// a function with deferred calls: a Go panic (not any other end of the path) runs them, and a
+	// deferred call that recovers makes the function return through its recover block
+	func() {
+		defer func() {
+			r := recover()
+			if r == nil {
+				return
+			}
+			pe, ok := r.(pathEnd)
+			if !ok || pe.kind != "panic" {
+				panic(r)
+			}
+			// unwind the interpreter stack to this frame (callees were cut off)
+			for len(in.stack) > 0 && in.stack[len(in.stack)-1] != fr {
+				in.stack = in.stack[:len(in.stack)-1]
+			}
+			fr.panicking = &pe
+			for len(fr.defers) > 0 {
+				d := fr.defers[len(fr.defers)-1]
+				fr.defers = fr.defers[:len(fr.defers)-1]
+				d()
+			}
+			if !fr.recovered {
+				panic(r)
+			}
+			fr.panicking, fr.recovered = nil, false
+			result = in.execFrom(fr, fn, fname, fn.Recover)
+		}()
+		result = in.execFrom(fr, fn, fname, fn.Blocks[0])
+	}()
+	return result
+}
+
+// execFrom runs the function of frame fr from the given block to its return.
+func (in *Interp) execFrom(fr *frame, fn *ssa.Function, fname string, start *ssa.BasicBlock) Value {
+	block := start
 	var prev *ssa.BasicBlock
 	for {
 		instrs := block.Instrs
@@ -1075,7 +1121,7 @@ func (in *Interp) interpret(fn *ssa.Function, args []Value, env []Value) (result
 				}
 			case *ssa.Panic:
 				v := in.get(fr, x.X)
-				in.goPanic(fmt.Sprintf("panic(%v)", describe(v)))
+				panic(pathEnd{kind: "panic", msg: fmt.Sprintf("panic(%v)", describe(v)) + " at " + in.where(), val: v})
 			case *ssa.RunDefers:
 				for len(fr.defers) > 0 {
 					d := fr.defers[len(fr.defers)-1]
@@ -1087,11 +1133,17 @@ func (in *Interp) interpret(fn *ssa.Function, args []Value, env []Value) (result
 				site := x
 				fr.defers = append(fr.defers, func() { in.doCall(fnv, args, site) })
 			case *ssa.Go:
-				in.unmodelled("go statement")
+				// ONE schedule: the new goroutine runs to completion where it is started (channels are
+				// queues; a receive that finds nothing needs a schedule the engine does not explore)
+				fnv, args := in.prepareCall(fr, &x.Call)
+				in.goSeq++
+				saved, savedLock := in.curG, in.locked
+				in.curG, in.locked = in.goSeq, 0
+				in.Stubs["go statement (run to completion in place)"]++
+				in.doCall(fnv, args, x)
+				in.curG, in.locked = saved, savedLock
 			case *ssa.Send:
-				in.unmodelled("channel send")
-			case *ssa.Select:
-				in.unmodelled("select")
+				in.chanSend(in.get(fr, x.Chan), in.get(fr, x.X))
 			case *ssa.Store:
 				p := in.get(fr, x.Addr).(Ptr)
 				in.store(p.C, in.get(fr, x.Val))
@@ -1421,6 +1473,66 @@ func (in *Interp) callBuiltin(b *ssa.Builtin, args []Value, site ssa.CallInstruc
 			in.unmodelled("append of a concrete slice to an abstract one")
 		}
 		s := args[0].(Slice)
+		// byte buffers that stand for symbolic strings (opaque length): the result stands for the concatenation
+		strOf := func(v Value) (Value, bool) {
+			switch x := v.(type) {
+			case string:
+				return x, true
+			case *SymStr:
+				return x, true
+			case Slice:
+				if x.Len < 0 {
+					if ss := in.taggedString(x); ss != nil {
+						return ss, true
+					}
+					return nil, false
+				}
+				if x.Arr == nil || x.Len == 0 {
+					return "", true
+				}
+				if ss := in.taggedString(x); ss != nil && in.bufTags != nil && in.bufTags[x.Arr] != nil {
+					return ss, true
+				}
+				bs := make([]*sym.Term, 0, x.Len)
+				for i := 0; i < x.Len; i++ {
+					t, ok := in.load(x.Arr.Kids[x.Off+i]).(*sym.Term)
+					if !ok {
+						return nil, false
+					}
+					bs = append(bs, t)
+				}
+				return in.mkByteStr(bs), true
+			}
+			return nil, false
+		}
+		opaque := func(v Value) bool {
+			x, ok := v.(Slice)
+			if ok && x.Len < 0 {
+				return true
+			}
+			_, isSym := v.(*SymStr)
+			return isSym
+		}
+		if opaque(args[0]) || opaque(args[1]) {
+			a, ok1 := strOf(args[0])
+			b, ok2 := strOf(args[1])
+			if !ok1 || !ok2 {
+				in.unmodelled("append involving an opaque buffer")
+			}
+			var cat Value
+			if as, ok := a.(string); ok {
+				if bs, ok2 := b.(string); ok2 {
+					cat = as + bs
+				}
+			}
+			if cat == nil {
+				cat = in.symStrBinop(token.ADD, a, b)
+			}
+			if cs, ok := cat.(string); ok {
+				return in.bytesOf(cs)
+			}
+			return in.bytesOfSym(cat.(*SymStr))
+		}
 		switch t := args[1].(type) {
 		case Slice:
 			return in.appendSlice(s, t, elemT)
@@ -1507,7 +1619,24 @@ func (in *Interp) callBuiltin(b *ssa.Builtin, args []Value, site ssa.CallInstruc
 			in.goPanic(fmt.Sprintf("unsafe.Slice: %d elements requested, %d available in the allocation", n, avail))
 		}
 		return Slice{Arr: p.C.Parent, Off: p.C.Idx, Len: int(n), Cap: avail}
+	case "close":
+		c := in.chanOf(args[0])
+		if c.Closed {
+			in.goPanic("close of closed channel")
+		}
+		c.Closed = true
+		return nil
 	case "recover":
+		// effective only when called directly by a deferred function while its caller is panicking
+		if n := len(in.stack); n >= 2 {
+			if pf := in.stack[n-2]; pf.panicking != nil && !pf.recovered {
+				pf.recovered = true
+				if pf.panicking.val != nil {
+					return pf.panicking.val
+				}
+				return in.newError("runtime error: "+pf.panicking.msg, nil)
+			}
+		}
 		return Iface{}
 	case "clear":
 		switch x := args[0].(type) {
@@ -1686,7 +1815,13 @@ func (in *Interp) eval(fr *frame, v ssa.Value) Value {
 		view := &Cell{T: x.Type().(*types.Pointer).Elem(), Kids: s.Arr.Kids[s.Off : s.Off+n]}
 		return Ptr{view}
 	case *ssa.MakeChan:
-		return Opaque{"chan"}
+		n, ok := concreteInt(in.get(fr, x.Size))
+		if !ok {
+			in.unmodelled("make(chan T, n) with symbolic size")
+		}
+		return &ChanObj{Cap: int(n), Elem: under(x.Type()).(*types.Chan).Elem()}
+	case *ssa.Select:
+		return in.selectOp(fr, x)
 	}
 	in.unmodelled(fmt.Sprintf("instruction %T", v))
 	return nil
@@ -2076,7 +2211,11 @@ func (in *Interp) unop(fr *frame, x *ssa.UnOp) Value {
 	case token.XOR:
 		return in.B.BNot(v.(*sym.Term))
 	case token.ARROW:
-		in.unmodelled("channel receive")
+		val, ok := in.chanRecv(v)
+		if x.CommaOk {
+			return Tuple{val, in.B.Bool(ok)}
+		}
+		return val
 	}
 	in.unmodelled("unop " + x.Op.String())
 	return nil
